@@ -303,7 +303,7 @@ def main():
                                "(harness/, -tags verif) and the compiled Lean driver (lean/Driver.lean)"}],
         "checks": checks,
         "not_applicable": na,
-        "notes": "fix: commits in /repo: 7b8525f f76f5f8 0ba1869 06bbac9 f2ee15c 674193f d4cd075 33b1873 eef0134 40188d9 a37e7db 6e0b732 (see known_findings.json, DESIGN.md section 10.3); seeded changes and which checks catch them: /verif/seeded/*/meta.json, DESIGN.md section 10.7",
+        "notes": "fix: commits in /repo: 7b8525f f76f5f8 0ba1869 06bbac9 f2ee15c 674193f d4cd075 33b1873 eef0134 40188d9 a37e7db 6e0b732 bd2a6b4 (see known_findings.json, DESIGN.md section 10.3); seeded changes and which checks catch them: /verif/seeded/*/meta.json, DESIGN.md section 10.7",
     }
     json.dump(m, open(os.path.join(V, "MANIFEST.json"), "w"), indent=1)
     print("MANIFEST.json:", len(checks), "checks,", len(na), "not claimed")
